@@ -288,6 +288,12 @@ func visitInstr(fr *frame, instr ssa.Instruction) continuation {
 		if l < 0 || c < l {
 			rtPanic(fr, "makeslice: len out of range")
 		}
+		if c >= 1<<20 && l == c && isByteSlice(instr.Type()) {
+			// I/O buffers of a MiB and more (the 4 MiB defaults) are scaled to 4 KiB: every model file is far
+			// smaller than that, so no such buffer ever fills and the code behaves the same
+			fr.i.px.note("io-buffer-of-1MiB-or-more-scaled-to-4KiB")
+			c, l = 4096, 4096
+		}
 		if c > 1<<22 {
 			panic(pathEnd{kind: "inconclusive", msg: fmt.Sprintf("make([]T, %d) too large at %s", c, fr.where())})
 		}
@@ -623,4 +629,13 @@ func doRecover(caller *frame) value {
 		}
 	}
 	return iface{}
+}
+
+func isByteSlice(t types.Type) bool {
+	sl, ok := t.Underlying().(*types.Slice)
+	if !ok {
+		return false
+	}
+	b, ok := sl.Elem().Underlying().(*types.Basic)
+	return ok && b.Kind() == types.Uint8
 }
